@@ -59,6 +59,9 @@ type snapshotBatchedIter[S memdbSnapshot] struct {
 	pos       int
 	batchSize int
 	nextKey   []byte
+	// exhausted is set when a reverse iteration has yielded the empty key, the smallest possible key.
+	// nextKey cannot express "nothing below the empty key": an empty upper bound means unbounded.
+	exhausted bool
 }
 
 func (s *SnapshotWithMutex[S]) BatchedSnapshotIter(lower, upper []byte, reverse bool) Iterator {
@@ -81,6 +84,13 @@ func (it *snapshotBatchedIter[_]) fillBatch() error {
 	// there cannot be concurrent writes to the seqNo variables.
 	if err := it.seqCheck(); err != nil {
 		return err
+	}
+
+	if it.exhausted {
+		it.keys = it.keys[:0]
+		it.values = it.values[:0]
+		it.pos = 0
+		return nil
 	}
 
 	it.mu.RLock()
@@ -129,6 +139,9 @@ func (it *snapshotBatchedIter[_]) fillBatch() error {
 		keyLen := len(lastKey)
 
 		if it.reverse {
+			if keyLen == 0 {
+				it.exhausted = true
+			}
 			if cap(it.nextKey) >= keyLen {
 				it.nextKey = it.nextKey[:keyLen]
 			} else {
